@@ -201,8 +201,8 @@ func c01worker(arg string) {
 		pairKey := fmt.Sprintf("%s.%s‖%s", t.name, a.method, b.method)
 		reported := map[string]bool{}
 		for ii, init := range t.inits {
-			if janitor && ii == 1 {
-				continue
+			if janitor && (ii == 1 || ii > 2) {
+				continue // the janitor family builds its own contents: empty and {x,y} with a 3 ms lifetime
 			}
 			if strings.HasPrefix(init.name, "grown-") {
 				// the capacity-threshold start states matter for atomicity (C02 runs them all); for the
